@@ -28,15 +28,22 @@ features, state/lifetime, encoding, arithmetic/boundaries), three changes each, 
 aim just outside what a small-scope exhaustive tester enumerates. Round 4: the same with a *focus area*
 per agent (process-global state and interleavings, the JSON path, key binding, the holder's selection
 walk, issuer strategy handling, verifier unpacking, the mock build and utilities, use of the
-dependencies). Every change was confirmed here
+dependencies). Round 5: again eight focus areas (JSON value semantics and numbers; several credentials /
+issuers / holders in one process; time handling; size and resource guards; Unicode and text handling;
+the public API surface; digests and decoys; the parsers and their error paths). Every change was confirmed here
 (`tools/confirm_seed.sh` in a scratch worktree: demo passes without the change, 146/146 suite tests
 pass with it, demo fails with it) and run against all 16 quick checks in scratch copies
 (`tools/seedmatrix.sh`; `/repo` itself is never modified). Kept under `/verif/seeded/<name>/`
 (`patch.diff`, `demo.rs`, `meta.json`).
 
-**%d changes kept. In the matrix runs all but one were reported by at least one quick check; the one that
-no check reported (R4L_r4_seed_b, a holder panic reachable only through a single-member selection) led to
-the repair described in its note, and is reported by C07 now.** "own" = the check of the
+**%d changes kept. In the matrix runs all but three were reported by at least one quick check. The three
+that no check reported — R4L_r4_seed_b (a holder panic reachable only through a single-member selection),
+R5U_r5_seed_b (a verifier expecting a Unicode audience also accepts its percent-encoded twin) and
+R5R_r5_seed_b (a holder table keyed by a textual path that two different objects share) — each led to the
+repair described in its note and is reported by the named checks now. Benign, property-preserving
+variations (`/verif/benign/*.diff`: output order, decoy count, salt length, pretty-printed JSON, a stricter
+verifier, a typ header, sorted payload keys, extra KB-JWT claims) were run through the same matrix and raise
+no alarm.** "own" = the check of the
 property the change was aimed at. "yes, after strengthening" means the check as it stood when the
 agent finished would have missed it (or exited 2), the miss was understood from the agent's
 description or from the matrix, and the check was widened; `meta.json` says which.
